@@ -677,6 +677,14 @@ pub fn map_op<const N: usize>(cx: &mut Cx, m: &mut MapN<N>, op: &MapOp) -> Strin
                 2 => go!(2),
                 3 => go!(3),
                 4 => go!(4),
+                // boundaries of 8-, 32- and 64-bit bookkeeping
+                8 => go!(8),
+                9 => go!(9),
+                32 => go!(32),
+                33 => go!(33),
+                63 => go!(63),
+                64 => go!(64),
+                65 => go!(65),
                 200 => go!(200),
                 _ => "bad-arity".into(),
             }
